@@ -4,17 +4,20 @@ Imported by c03.py (cases with 'k' == 'shift').  Sub-kinds ('sub'):
   blocks  : list(tb._shift_blocks(r, c, wrap, fill)) vs the Lean model SF.TB.shiftBlocks - block by block (ndim, width,
             dtype token exactly, cells up to NumPy's numeric widening), error category otherwise
   frame   : Frame.roll / Frame.shift vs SF.TB.frameShift (from_blocks + the shape check of the Frame constructor), plus
-            the LEAN-INDEPENDENT reference: plain Python rotation / shift of the token columns of the spec (in the domain
-            where the code is right: rolling, or a column shift in ColShiftOk; non-empty axes)
+            the LEAN-INDEPENDENT reference: plain Python rotation / shift of the token columns of the spec, for ALL
+            shifts (every column shifted out: the all-fill frame); on zero-sized axes: the empty frame
   layouts : THE PROPERTY on the real code over the whole shift range: two layouts, same outcome (values, dtypes, error class)
   array   : util.array_shift on 1-D and 2-D arrays, both axes, vs SF.Block.arrayShift
   series  : Series.roll / Series.shift vs SF.seriesRoll / SF.seriesShift and the plain Python reference
 
-Known boundary behaviour of the unchanged tree (proved about the mirrored model in Props/C03Shift.lean, counted here,
-never flagged): Frame.shift(columns=c) raises ErrorInitFrame for c <= -ncols and for c > ncols that is no multiple of
-ncols (shift_overshoot); every roll / shift of a frame with no row or no column, Series.roll of an empty Series and
-array_shift of an empty axis by a non-zero shift raise ZeroDivisionError (shift_zero_axis, series_roll_empty,
-array_shift_empty).
+Frame.shift(columns=c) with |c| >= ncols (every column shifted out) raised ErrorInitFrame on the pinned tree (finding
+F75-shift-columns-overshoot, repaired in /repo commit ad4f5b0; the model mirrors the repaired code, the pinned algorithm
+is kept as SF.TB.shiftBlocksPinned for the counterexample theorems): these cases are inside the proved domain and under
+the strict plain-Python reference (the all-fill frame).
+Still open on the tree (finding F76-roll-shift-zero-axis, proved about the mirrored model: shift_zero_axis,
+series_roll_empty, array_shift_empty): every roll / shift of a frame with no row or no column and Series.roll of an empty
+Series raise ZeroDivisionError, as does Series.shift / array_shift of an empty axis by a non-zero shift; the reference
+there is the unchanged empty container, the ZeroDivisionError is reported under that finding.
 """
 from __future__ import annotations
 
@@ -28,22 +31,22 @@ from sfv.canon import tok, untok, err_cat, dtype_tok, array_toks
 from sfv.tbwire import Interner, tb_wire_from_blocks, answer_tb, real_tb_view, parse_sexp
 
 THEOREMS = [
-    'SF.C03.slice_list_is_python_slice', 'SF.C03.array_shift_refines', 'SF.C03.roll_pointwise', 'SF.C03.shift_pointwise', 'SF.C03.array_shift_empty',
-    'SF.C03.block_array_shift_rows', 'SF.C03.block_array_shift_cols',
-    'SF.C03.shift_refines', 'SF.C03.shift_refines_partial', 'SF.C03.shift_wf_shape', 'SF.C03.shift_overshoot',
-    'SF.C03.shift_ok_iff', 'SF.C03.shift_refines_counterexample', 'SF.C03.shift_overshoot_examples',
-    'SF.C03.shift_zero_axis', 'SF.C03.layout_unobservable_shift',
+    'SF.C03.slice_list_is_python_slice', 'SF.C03.array_shift_refines', 'SF.C03.roll_pointwise', 'SF.C03.shift_pointwise',
+    'SF.C03.array_shift_empty', 'SF.C03.block_array_shift_rows', 'SF.C03.block_array_shift_cols',
+    'SF.C03.shift_refines', 'SF.C03.shift_wf_shape', 'SF.C03.shift_zero_axis', 'SF.C03.layout_unobservable_shift',
+    'SF.C03.shiftPinned_overshoot', 'SF.C03.shiftPinned_ok_iff', 'SF.C03.shiftPinned_agrees',
+    'SF.C03.shiftPinned_overshoot_counterexample', 'SF.C03.shiftPinned_overshoot_examples',
     'SF.C03.series_roll_refines', 'SF.C03.series_shift_refines', 'SF.C03.series_roll_empty',
 ]
 TARGETS = ['SFModel.Props.C03Shift']
-PARTIAL = ['SF.C03.shift_refines_partial (= shift_refines): Frame.shift refines the list specification only for column shifts in '
-           'ColShiftOk (-n < c <= n or a positive multiple of n); outside it the code yields more than n columns and raises '
-           'ErrorInitFrame (shift_overshoot, shift_ok_iff, shift_refines_counterexample); zero-sized axes raise '
-           'ZeroDivisionError (shift_zero_axis)']
+PARTIAL = ['SF.C03.shift_refines / shift_wf_shape / series_roll_refines / series_shift_refines hold for ALL shifts and both wrap modes but '
+           'need at least one row and one column (one cell): on zero-sized axes the code raises ZeroDivisionError '
+           '(shift_zero_axis, series_roll_empty, array_shift_empty; finding F76-roll-shift-zero-axis, not repaired)']
+ZERO_AXIS = 'F76-roll-shift-zero-axis'
 
 RULE = ('shift: layouts of 1-D / 2-D blocks of widths 1..4, 0..5 rows, row and column shifts in [-2n-1, 2n+1] (small layouts: every column '
         'shift exhaustively), wrap and fill, nine fill values; list(tb._shift_blocks) / Frame.roll / Frame.shift / array_shift (1-D, 2-D, '
-        'both axes) / Series.roll / Series.shift vs the model, plain-Python reference inside the proved domain, two layouts over the whole range')
+        'both axes) / Series.roll / Series.shift vs the model, plain-Python reference for every shift, two layouts over the whole range')
 TRUSTED = ['roll / shift: util.resolve_dtype and NumPy\'s cell conversion on assignment are model parameters (the driver gets the real '
            'resolve_dtype answers as a table; cells are compared up to numeric widening, dtypes exactly)']
 
@@ -271,11 +274,13 @@ def evaluate(ctx, c, outs):
         n, m = spec['rows'], len(spec['cols'])
         r, cs, wrap = c['r'], c['c'], bool(c['wrap'])
         ctx.count('shift_wrap' if wrap else 'shift_fill')
-        domain = n > 0 and m > 0 and (wrap or col_shift_ok(m, cs))
-        if n == 0 or m == 0:
+        domain = n > 0 and m > 0
+        if not domain:
             ctx.count('shift_zero_axis')
-        elif not domain:
-            ctx.count('shift_column_overshoot')
+        elif not wrap and abs(cs) >= m:
+            ctx.count('shift_every_column_out')   # the repaired branch (F75): head / tail dropped, the all-fill frame
+            if not col_shift_ok(m, cs):
+                ctx.count('shift_every_column_out_formerly_raising')
         if m and n:
             # where the walk starts: 1-D block / first column of a 2-D block / inside a 2-D block (head-tail split)
             p = (-(cs % m)) % m
@@ -318,17 +323,19 @@ def evaluate(ctx, c, outs):
             real = ('err', err_cat(ex), repr(ex)[:80])
         if isinstance(real, tuple):
             ctx.count(f'shift_frame_raises_{real[1]}')
-        # Lean-independent reference, in the domain where the unchanged code is right
+        # Lean-independent reference: ALL shifts of a frame with at least one row and one column
         if domain:
             ref = reference(spec, r, cs, wrap, c['fill'])
             if isinstance(real, tuple) or len(real['cols']) != len(ref) or not all(cells_equal(x, y) for x, y in zip(real['cols'], ref)):
                 fails.append(Failure('oracle', f'Frame.{"roll" if wrap else "shift"}({r}, {cs}, fill={c["fill"]}) layout={spec["layout"]}: {str(real)[:200]} vs reference {str(ref)[:200]}', c))
             ctx.count('shift_reference_compared')
-        elif not isinstance(real, tuple):
-            # outside the domain the unchanged tree raises; a result there (e.g. after a repair of /repo) has to be the reference
-            ref = reference(spec, r, cs, wrap, c['fill']) if n and m else None
-            if ref is not None and not (len(real['cols']) == len(ref) and all(cells_equal(x, y) for x, y in zip(real['cols'], ref))):
-                fails.append(Failure('oracle', f'Frame.shift({r}, {cs}) outside ColShiftOk returns {str(real)[:200]}, reference {str(ref)[:200]}', c))
+        else:
+            # zero-sized axis: there is nothing to move, the reference is the empty frame of the same shape
+            if isinstance(real, tuple):
+                fails.append(Failure('oracle', f'Frame.{"roll" if wrap else "shift"}({r}, {cs}) of a frame of shape {(n, m)} raises {real[2]}', c,
+                                     finding=ZERO_AXIS if 'ZeroDivisionError' in real[2] else None))
+            elif real['rows'] != n or len(real['cols']) != m or any(col for col in real['cols']):
+                fails.append(Failure('oracle', f'Frame.{"roll" if wrap else "shift"}({r}, {cs}) of a frame of shape {(n, m)} returns {str(real)[:200]}', c))
         if out is not None:
             mod = answer_tb(out, it)
             if isinstance(mod, tuple):
@@ -371,13 +378,15 @@ def evaluate(ctx, c, outs):
         except Exception as ex:
             real = ('err', err_cat(ex), repr(ex)[:80])
             ctx.count(f'shift_series_raises_{real[1]}')
-        if n:
-            toks = array_toks(a)
-            ref = py_roll(toks, c['shift']) if c['kind'] == 'roll' else py_shift(toks, c['shift'], c['fill'])
-            if real[0] == 'err' or not cells_equal(real[2][0], ref):
-                fails.append(Failure('oracle', f'Series.{c["kind"]}({c["shift"]}, fill={c["fill"]}) of {toks}: {str(real)[:200]} vs reference {ref}', c))
-        else:
+        toks = array_toks(a)
+        ref = (py_roll(toks, c['shift']) if c['kind'] == 'roll' else py_shift(toks, c['shift'], c['fill'])) if n else []
+        if n == 0:
             ctx.count('shift_series_empty')
+        if real[0] == 'err':
+            fails.append(Failure('oracle', f'Series.{c["kind"]}({c["shift"]}, fill={c["fill"]}) of {toks} raises {real[2]}', c,
+                                 finding=ZERO_AXIS if n == 0 and 'ZeroDivisionError' in real[2] else None))
+        elif not cells_equal(real[2][0], ref):
+            fails.append(Failure('oracle', f'Series.{c["kind"]}({c["shift"]}, fill={c["fill"]}) of {toks}: {str(real)[:200]} vs reference {ref}', c))
         if out is not None:
             if out.startswith('err '):
                 ok = real[0] == 'err' and real[1] == out[4:].strip()
@@ -390,8 +399,8 @@ def evaluate(ctx, c, outs):
 
 
 def eval_layouts(ctx, c):
-    """THE PROPERTY: the block layout is unobservable through roll / shift - for the whole shift range (outside
-    ColShiftOk and on empty axes both layouts have to raise the same exception class)"""
+    """THE PROPERTY: the block layout is unobservable through roll / shift - for the whole shift range (on
+    empty axes both layouts have to raise the same exception class)"""
     spec = c['spec']
     fill = untok(c['fill'])
     res = []
